@@ -4,6 +4,9 @@
 From Coq Require Import List NArith Bool.
 From RV Require Import Model.Sel Model.SelAlg Run.C23 Proofs.C23.
 Import ListNotations.
+Import String.StringSyntax.
+Local Open Scope string_scope.
+Local Open Scope list_scope.
 
 (* ALL selectors: c is a superselector of every c' obtained from it by adding simple selectors (no new
    pseudo-element) to any of its compounds and ancestors / parents in front of its root *)
